@@ -136,7 +136,7 @@ class C14(core.Check):
         lengths = list(LENGTHS_QUICK)
         if big:
             lengths = sorted(set(lengths + [r.randint(50, 238) for _ in range(8)] + [r.randint(242, 700) for _ in range(8)] + [1000]))
-        kinds = ['walk', 'spike'] if not big else ['walk', 'spike', 'trend', 'flat', 'lattice', 'alt']
+        kinds = ['walk', 'spike', 'lattice'] if not big else ['walk', 'spike', 'lattice', 'trend', 'flat', 'alt', 'gappy', 'stall']
         nmax = max(lengths)
         series = {k: indlib.candles(r, nmax, k) for k in kinds}
         plan, skipped = {}, []
